@@ -1177,6 +1177,12 @@ def show(t, depth=0):
         return "%s(%s)%s" % (short(t[1]), ", ".join(show(x) for x in t[2]), "#%d" % t[3] if len(t) > 3 else "")
     if k == "discr":
         return "discr(%s)" % show(t[1])
+    if k == "closure":
+        return "closure(%s)[%s]" % (t[1].rsplit("::", 2)[-2] + "::" + t[1].rsplit("::", 1)[-1] if "::" in t[1] else t[1], ", ".join(show(x) for x in t[2]))
+    if k == "havoc":
+        return "havoc(%s, %s)" % (t[1], show(t[2]))
+    if k == "upd":
+        return "upd(%s, %s, %s)" % (show(t[1]), t[2], show(t[3]))
     if k == "index":
         return "%s[%s]" % (show(t[1]), show(t[2]))
     if k == "len":
